@@ -807,7 +807,7 @@ class OpenDocument:
         """
         assert(type(data)==type(u""))
 
-        return element.CDATASection(cdata)
+        return element.CDATASection(data)
 
     def getMediaType(self):
         """
